@@ -99,7 +99,13 @@ func baseTLSConfig() *tls.Config {
 		NextProtos:   []string{"h2", "A", "B", "__AUTH__", "__UNAUTH__", "C"},
 		MinVersion:   tls.VersionTLS12,
 	}
-	if baseTLSSeq.Add(1)%2 == 0 {
+	seq := baseTLSSeq.Add(1)
+	if seq%3 == 2 {
+		// the usual certificate-only configuration: no protocol names of its own, so no protocol is negotiated
+		// with base-TLS clients whatever they offer
+		inner.NextProtos = nil
+	}
+	if seq%2 == 0 {
 		// an application whose base configuration chooses the real one per client
 		return &tls.Config{MinVersion: tls.VersionTLS12, GetConfigForClient: func(*tls.ClientHelloInfo) (*tls.Config, error) { return inner, nil }}
 	}
@@ -185,7 +191,9 @@ func newAdvWorld(name, storage string, wrap ...bool) *advWorld {
 	// ... and an option list with unset (nil) entries, as an application that fills optional options
 	// conditionally produces: nil entries are skipped, nothing after them is lost
 	w.lwOwn, err = world.NewLW(w.s, world.LWCfg{
-		Options: append(append([]nodeenrollment.Option{nil}, w.s.Opts()...), nil),
+		// ... and, in every other world, the server name spelled out (the library's common name: what its
+		// certificates carry anyway)
+		Options: advOwnOptions(w.s),
 		FetchFn: func(ctx context.Context, st nodeenrollment.Storage, req *types.FetchNodeCredentialsRequest, opt ...nodeenrollment.Option) (*types.FetchNodeCredentialsResponse, error) {
 			return registration.FetchNodeCredentials(ctx, st, req, opt...)
 		},
@@ -197,6 +205,16 @@ func newAdvWorld(name, storage string, wrap ...bool) *advWorld {
 		panic(err)
 	}
 	return w
+}
+
+var advOwnSeq atomic.Int64
+
+func advOwnOptions(s *world.Server) []nodeenrollment.Option {
+	o := append(append([]nodeenrollment.Option{nil}, s.Opts()...), nil)
+	if advOwnSeq.Add(1)%2 == 0 {
+		o = append(o, nodeenrollment.WithServerName(nodeenrollment.CommonDnsName))
+	}
+	return o
 }
 
 func (w *advWorld) close() {
@@ -1148,6 +1166,8 @@ func runTLSAdv(c *engine.Ctx) engine.Result {
 			runReinit(c, ac)
 		case "seq":
 			runSeq(c, ac)
+		case "resumption", "hangup-after-hello":
+			runResumption(c, orDefault(ac.Storage, world.Inmem), false, 0)
 		default:
 			w := newAdvWorld(orDefault(ac.World, "normal"), orDefault(ac.Storage, world.Inmem))
 			defer w.close()
